@@ -66,12 +66,12 @@ func (r *Role) String() string {
 
 // Sess describes one BGP session as far as the table layer sees it.
 type Sess struct {
-	Kind    string `json:"kind"`
-	AddPath uint   `json:"addpath,omitempty"` // 0 = best path only, n = add-path send with at most n paths
-	Peer    uint32 `json:"peer"`
-	PeerASN uint32 `json:"peer_asn"`
-	Role    *Role  `json:"role,omitempty"`
-	AddPathRX bool `json:"addpath_rx,omitempty"`
+	Kind      string `json:"kind"`
+	AddPath   uint   `json:"addpath,omitempty"` // 0 = best path only, n = add-path send with at most n paths
+	Peer      uint32 `json:"peer"`
+	PeerASN   uint32 `json:"peer_asn"`
+	Role      *Role  `json:"role,omitempty"`
+	AddPathRX bool   `json:"addpath_rx,omitempty"`
 }
 
 func (s Sess) IBGP() bool { return s.Kind == IBGP || s.Kind == IBGPRR }
